@@ -12,6 +12,20 @@ ENGINES = [
 _T = "deductive verification: VCs generated from the Python AST by symbolic execution, sidecar contracts, modular callee contracts / induction, z3"
 
 CLAIMS = {
+    "C01": dict(
+        text="Partial, per function: 16 loop- and branch-restructuring rewrites (cut, shift, join, divide in all tail "
+             "modes, divide_with_recompute, product, unroll, remove, add, fuse, fuse_if, dead loop/branch, lift_scope, "
+             "fission, reorder) are interpreted on real procedures with symbolic bounds/quotients/cut points and their "
+             "output nest is proved to execute the observable statements for exactly the same iterator values in the "
+             "prescribed order (explicit witnesses), with each licensing Check_* called on the right statements; the "
+             "side-condition predicates of new_eff.py are proved to imply their Bernstein-style conditions over "
+             "abstract location sets; the Kleene lowering and the div/mod constraint of SMTSolver are proved sound.",
+        design_ref="3/C01",
+        note="Not whole-program equivalence: effect extraction, Alpha_Rename/SubstArgs, the pattern matcher, every "
+             "primitive not listed (stage_mem, bind_expr, inline, autolift, specialize, ...), compositions in the "
+             "stdlib, and the lemma 'Bernstein conditions imply commutation' are assumed; focus statement at top "
+             "level, blocks of 1-3 statements, nests <= 2 deep.",
+        technique=_T + "; iteration-trace postconditions with explicit witnesses; formula-construction contracts"),
     "C02": dict(
         text="Index linearisation is proved for all values: lift_to_cir and simplify_cir preserve the floor-semantics "
              "value and only flag a node non-negative when it is; tensor_strides/get_strides/get_idx_offset compute "
@@ -37,6 +51,18 @@ CLAIMS = {
              "shapes, pyparser. Known finding F8d: an access outside a window alias's own extent but inside the "
              "source buffer is accepted (a repair breaks an existing test).",
         technique=_T + "; formula-construction contracts (recorded solver questions imply the property's condition, quantifier elimination per conclusion)"),
+    "C04": dict(
+        text="Partial: index remaps of divide_dim/mult_dim/fold/unroll_buffer/resize/expand are proved in range and "
+             "injective for all values; the storage-moving rewrites are proved to call Check_Bounds on the final ir and "
+             "the new allocation (resp. Check_Aliasing on the result) on every normally returning path; the results of "
+             "the allocation-moving and block-copying rewrites on real procedures are proved well scoped (every use "
+             "in the scope of exactly one declaration, copied blocks alpha-renamed).",
+        design_ref="3/C04",
+        note="Assumes Check_Bounds/Check_Aliasing themselves, Alpha_Rename/SubstArgs; uninitialised reads are not "
+             "covered. Known findings: F20 (sink_alloc leaves the else branch using a symbol declared only in the "
+             "if branch; the golden file of an existing test records that output) and F23 (insert_noop_call checks "
+             "only argument types; an existing test inserts a call with an out-of-range window).",
+        technique=_T + "; protocol obligations via ghost call recorders; scoping checker as ghost function over the result tree"),
     "C05": dict(
         text="Thin: the linear-integer lowering inside UEq.problem.solve is proved (lower_e returns the coefficient "
              "vector of its argument by structural induction, lower_p is a sound lowering of Eq/Conj/Disj/Cases, the "
@@ -48,6 +74,20 @@ CLAIMS = {
              "the inline-inverse sentence are NOT covered; the SMT oracle is assumed. Known finding F9: replace() "
              "does not check the callee's assertions at the new call site (no repair keeps the suite passing).",
         technique=_T),
+    "C06": dict(
+        text="Partial: the index arithmetic of every forwarding closure (insert, replace/delete, wrap) is proved for "
+             "all positions and list lengths against the list-concatenation model; _local_forward is proved to splice "
+             "only at the edit depth and only on paths through the edited list; each real edit (insert, replace, "
+             "delete, wrap, move, node replace) is run together with its real forwarding function on real procedures "
+             "with symbolic positions: a surviving statement is forwarded to the very same object, a deleted one is "
+             "invalid, blocks never gain foreign statements, gaps follow their anchor; _compose, Procedure.forward "
+             "(oldest first, identity for the same procedure, error for unrelated) and implicit forwarding by "
+             "CursorArgumentProcessor.",
+        design_ref="3/C06",
+        note="Tree shapes are bounded (edited block length 0-4, nesting depth <= 2) with symbolic positions; the "
+             "compositions of edit forwardings inside each scheduling primitive are not covered; expression cursors "
+             "are out of scope.",
+        technique=_T + "; symbolic ranges/slices (pyvc/srange.py)"),
     "C07": dict(
         text="Every in-place mutation site (548 obligations) in the scheduling, effect-analysis, cursor, LoopIR, "
              "proc_eqv and API files is proved to act on a container that is fresh on every path (flow-sensitive "
@@ -132,6 +172,17 @@ CLAIMS = {
         note="NOT covered: that the emitted text is grammatical, well-typed C as a language-level judgement (no C "
              "front end is in reach of contracts); expression shapes are bounded (depth <= 3).",
         technique=_T),
+    "C16": dict(
+        text="Navigation laws on Node/Block/Gap and the API wrappers are proved for blocks of any length (symbolic-"
+             "length statement lists): next/prev inverse with InvalidCursor exactly at the edges, before/after/anchor, "
+             "block indexing and slicing, expand clipping, parent/child; _children is checked against the ASDL text "
+             "parsed from LoopIR.py on every run (every constructor's child fields in declaration order); find "
+             "returns exactly the n-th match of the pre-order traversal (symbolic n), all matches, or raises; the two "
+             "regular expressions that parse '#n' are proved to agree for all strings with z3's regex theory.",
+        design_ref="3/C16",
+        note="The match relation match_e/match_stmts is taken as the definition of 'matches'; pyparser.pattern is "
+             "assumed; find is checked on one procedure containing every constructor (23 patterns, 2 scopes).",
+        technique=_T + "; z3 regular-expression theory for the '#n' syntax agreement"),
     "C17": dict(
         text="PrintEnv.get_name/push are proved to maintain, from an arbitrary state satisfying it, the invariant "
              "that the scope chain maps live symbols injectively to strings and that every string handed out is "
@@ -150,11 +201,21 @@ CLAIMS = {
              "in pure position, and everything outside the four anchor files (unification variable order, z3 "
              "model choice).",
         technique="ordering obligations generated from the AST (unordered-origin analysis) discharged with z3; value contract on Sym.__lt__"),
+    "C19": dict(
+        text="Frame contracts (field-wise equality of ADT nodes as oracle) on real procedures: partial_eval replaces "
+             "every read of a bound argument (body, types, predicates, windows, call arguments) by the literal and "
+             "removes exactly those arguments; transpose permutes shape, every access and every stride() - in the body "
+             "and the assertions - by one permutation; set_memory/set_window/set_precision, parallelize_loop, rename, "
+             "make_instr, add_assertion change only their documented field.",
+        design_ref="3/C19",
+        note="Semantic preservation follows from the frame only by the argument that untouched fields are the loop "
+             "nest; parse_fragment and _replace_reads/_replace_writes are assumed.",
+        technique=_T + "; frame postconditions over real ADT trees"),
 }
 
 _PLANNED = "planned in DESIGN.md but the contracts are not built yet; not claimed on the strength of the design"
 NOT_APPLICABLE = {
     "C14": "needs a formal semantics of vendor intrinsics (AVX2/AVX-512 C fragments); no contract over code in /repo can state it - any contract would be the assumption the property asks to check",
 }
-for _k in ("C01 C04 C06 C16 C19").split():
+for _k in ():
     NOT_APPLICABLE.setdefault(_k, _PLANNED)
